@@ -37,13 +37,14 @@ class Fail:
 
 
 class Result:
-    def __init__(self, fail=None, nontrivial=False, classes=(), key=None, sample=None, skipped=None):
+    def __init__(self, fail=None, nontrivial=False, classes=(), key=None, sample=None, skipped=None, extra=0):
         self.fail = fail
         self.nontrivial = nontrivial
         self.classes = classes
         self.key = key            # distinctness key (defaults to the canonical JSON of the case)
         self.sample = sample      # what to show in evidence (defaults to the case)
         self.skipped = skipped    # reason the case is outside the property's domain (counted)
+        self.extra = extra        # further oracle evaluations made inside this case (batches)
 
 
 class HarnessError(BaseException):
@@ -184,7 +185,7 @@ class Acc:
         self.harness_errors = []
 
     def count(self, case, res):
-        self.evaluations += 1
+        self.evaluations += 1 + getattr(res, "extra", 0)
         if res.skipped:
             self.skipped[res.skipped] += 1
         for c in res.classes:
